@@ -1,7 +1,7 @@
 import Props.C03
 import Lemmas.Ascii
 /-!
-# C03 — flattened JSON serialization: sign then verify
+# C03 — flattened and general JSON serialization: sign then verify
 
 `c03_flat`: whatever `jws.serialize_json` returns for one member (flattened form, key given directly)
 verifies with the corresponding public key under the same registry and yields exactly the original
@@ -9,6 +9,9 @@ payload octets and the same header members — under the same primitive laws as 
 proved here on top of the compact case: the base64url text members (`payload`, `protected`, `signature`)
 survive the `str` representation (`strBytes_asciiStr`), an empty protected header is omitted and read
 back as empty, and the merged header the verifier checks is the one the signer checked.
+
+`c03_general`: the same for the general form with any non-empty list of signature members (`signMembers_verify`:
+induction over the member list; `verify_general_json` accepts because every entry does).
 -/
 namespace Jose.C03
 
@@ -25,19 +28,15 @@ theorem toBytesAscii_asciiStr (b : Bytes) (h : ∀ x ∈ b, x < 128) : toBytesAs
   unfold toBytesAscii
   simp [isAscii_asciiStr b h, strBytes_asciiStr b h]
 
-/-- **Flattened JSON round trip** (key given directly). -/
-theorem c03_flat (P : Prims) (E : Env) (K : KeyEnv) (L : JwsLaws P E) (reg : JwsRegistry) (m : Member)
-    (payload : Bytes) (sk pk : Key) (hpub : PubOf E sk pk) (hp : IsBytes payload) (v : FlatJws)
+/-- One signature entry: what `__sign_member` emits is read back by `signatureToMember` to a member with the same
+merged header, and `verify_signature` accepts it over the same payload segment with the public key. -/
+theorem signMember_verifies (P : Prims) (E : Env) (K : KeyEnv) (L : JwsLaws P E) (reg : JwsRegistry) (m : Member)
+    (payload : Bytes) (sk pk : Key) (hpub : PubOf E sk pk) (s : JsonSig)
     (hnone : ∀ algv alg, pyGetItemStr (.obj m.headers) "alg" = .ok algv → reg.getAlg algv = .ok alg → alg.cls ≠ "NoneAlgModel")
-    (h : serializeFlat P E K reg m payload (.base (.key sk)) = .ok v) :
-    ∃ o, deserializeFlat P E K reg v (.base (.key pk)) = .ok o ∧ o.payload = payload ∧
-      ∃ m', o.members = [m'] ∧ m'.headers = m.headers := by
-  have hpay : extractPayload (asciiStr (b64e payload)) = .ok payload := by
-    unfold extractPayload
-    rw [b64_text_roundtrip payload hp]
-    rfl
+    (h : signMember P E K reg (b64e payload) m (.base (.key sk)) = .ok s) :
+    ∃ m', signatureToMember P s = .ok m' ∧ m'.headers = m.headers ∧
+      verifySignature P E K reg m' s (strBytes (asciiStr (b64e payload))) (.base (.key pk)) = .ok true := by
   have hpseg128 := b64e_lt128 payload
-  -- the member as it is read back has the same merged header
   have hmk : ∀ p' : Option Dict, p'.getD [] = m.prot.getD [] →
       (({ prot := p', header := nonEmptyOrNone m.header } : Member).headers = m.headers) := by
     intro p' hp'
@@ -46,16 +45,15 @@ theorem c03_flat (P : Prims) (E : Env) (K : KeyEnv) (L : JwsLaws P E) (reg : Jws
     | none => rfl
     | some l => cases l <;> rfl
   by_cases htr : protTruthy m.prot = true
-  · -- a protected header is emitted
-    obtain ⟨kv, rest, hprot⟩ : ∃ kv rest, m.prot = some (kv :: rest) := by
+  · obtain ⟨kv, rest, hprot⟩ : ∃ kv rest, m.prot = some (kv :: rest) := by
       cases hp' : m.prot with
       | none => simp [protTruthy, hp'] at htr
       | some l =>
         cases l with
         | nil => simp [protTruthy, hp'] at htr
         | cons a b => exact ⟨a, b, rfl⟩
-    simp only [serializeFlat, signMember, htr, bind_eq_ok, pure_eq_ok, guessKey, guessKeyBase, if_true] at h
-    obtain ⟨s, ⟨u1, hch, algv, hav, alg, hga, ⟨k, kid?⟩, hg, u2, hu, u3, hkt, pseg, hpseg, sig, hsig, rfl⟩, rfl⟩ := h
+    simp only [signMember, htr, bind_eq_ok, pure_eq_ok, guessKey, guessKeyBase, if_true] at h
+    obtain ⟨u1, hch, algv, hav, alg, hga, ⟨k, kid?⟩, hg, u2, hu, u3, hkt, pseg, hpseg, sig, hsig, rfl⟩ := h
     simp at hg
     obtain ⟨rfl, rfl⟩ := hg
     cases u1; cases u3
@@ -67,16 +65,16 @@ theorem c03_flat (P : Prims) (E : Env) (K : KeyEnv) (L : JwsLaws P E) (reg : Jws
     have hkt' : alg.checkKeyType pk = .ok () := by
       simpa [JwsAlgRow.checkKeyType, hpub.kty] using hkt
     have hm' := hmk (some (kv :: rest)) (by simp [hprot])
-    refine ⟨{ payload := payload, members := [{ prot := some (kv :: rest), header := nonEmptyOrNone m.header }] }, ?_, rfl, _, rfl, hm'⟩
     have h128 := b64e_lt128 js
     have hdec : jsonB64Decode P (b64e js) = .ok (.obj (kv :: rest)) := by
       simp [jsonB64Decode, b64d_b64e js hjsb, hload, JVal.isDict, bind, Except.bind, ensure, pure, Except.pure]
     have hver' : jwsVerify P E alg (strBytes (asciiStr (b64e js)) ++ [46] ++ strBytes (asciiStr (b64e payload))) sig pk = .ok true := by
       rw [strBytes_asciiStr _ hpseg128, strBytes_asciiStr _ h128]; simpa using hver
-    simp only [deserializeFlat, hpay, signatureToMember, verifySignature, guessKey, guessKeyBase, bind, Except.bind, pure, Except.pure,
-      toBytesAscii_asciiStr _ h128, hdec, asDict, hm', hch, hav, hga, hpub.use, hkt', hsigtxt, hver', ensure, if_true]
-  · -- no protected header is emitted; it reads back as absent
-    have hfalse : protTruthy m.prot = false := by simpa using htr
+    refine ⟨{ prot := some (kv :: rest), header := nonEmptyOrNone m.header }, ?_, hm', ?_⟩
+    · simp only [signatureToMember, bind, Except.bind, pure, Except.pure, toBytesAscii_asciiStr _ h128, hdec, asDict]
+    · simp only [verifySignature, guessKey, guessKeyBase, bind, Except.bind, pure, Except.pure,
+        hm', hch, hav, hga, hpub.use, hkt', hsigtxt, hver', ensure, if_true]
+  · have hfalse : protTruthy m.prot = false := by simpa using htr
     have hgd : m.prot.getD [] = [] := by
       cases hp' : m.prot with
       | none => rfl
@@ -84,8 +82,8 @@ theorem c03_flat (P : Prims) (E : Env) (K : KeyEnv) (L : JwsLaws P E) (reg : Jws
         cases l with
         | nil => rfl
         | cons a b => simp [protTruthy, hp'] at hfalse
-    simp only [serializeFlat, signMember, hfalse, bind_eq_ok, pure_eq_ok, guessKey, guessKeyBase, Bool.false_eq_true, if_false] at h
-    obtain ⟨s, ⟨u1, hch, algv, hav, alg, hga, ⟨k, kid?⟩, hg, u2, hu, u3, hkt, pseg, hpseg, sig, hsig, rfl⟩, rfl⟩ := h
+    simp only [signMember, hfalse, bind_eq_ok, pure_eq_ok, guessKey, guessKeyBase, Bool.false_eq_true, if_false] at h
+    obtain ⟨u1, hch, algv, hav, alg, hga, ⟨k, kid?⟩, hg, u2, hu, u3, hkt, pseg, hpseg, sig, hsig, rfl⟩ := h
     simp at hg
     obtain ⟨rfl, rfl⟩ := hg
     subst hpseg
@@ -95,10 +93,74 @@ theorem c03_flat (P : Prims) (E : Env) (K : KeyEnv) (L : JwsLaws P E) (reg : Jws
     have hkt' : alg.checkKeyType pk = .ok () := by
       simpa [JwsAlgRow.checkKeyType, hpub.kty] using hkt
     have hm' := hmk none (by simp [hgd])
-    refine ⟨{ payload := payload, members := [{ prot := none, header := nonEmptyOrNone m.header }] }, ?_, rfl, _, rfl, hm'⟩
     have hver' : jwsVerify P E alg ([] ++ [46] ++ strBytes (asciiStr (b64e payload))) sig pk = .ok true := by
       rw [strBytes_asciiStr _ hpseg128]; simpa using hver
-    simp only [deserializeFlat, hpay, signatureToMember, verifySignature, guessKey, guessKeyBase, bind, Except.bind, pure, Except.pure,
-      hm', hch, hav, hga, hpub.use, hkt', hsigtxt, hver', ensure, if_true]
+    refine ⟨{ prot := none, header := nonEmptyOrNone m.header }, ?_, hm', ?_⟩
+    · simp only [signatureToMember, bind, Except.bind, pure, Except.pure]
+    · simp only [verifySignature, guessKey, guessKeyBase, bind, Except.bind, pure, Except.pure,
+        hm', hch, hav, hga, hpub.use, hkt', hsigtxt, hver', ensure, if_true]
+
+theorem extractPayload_b64e (payload : Bytes) (hp : IsBytes payload) : extractPayload (asciiStr (b64e payload)) = .ok payload := by
+  unfold extractPayload
+  rw [b64_text_roundtrip payload hp]
+  rfl
+
+/-- **Flattened JSON round trip** (key given directly). -/
+theorem c03_flat (P : Prims) (E : Env) (K : KeyEnv) (L : JwsLaws P E) (reg : JwsRegistry) (m : Member)
+    (payload : Bytes) (sk pk : Key) (hpub : PubOf E sk pk) (hp : IsBytes payload) (v : FlatJws)
+    (hnone : ∀ algv alg, pyGetItemStr (.obj m.headers) "alg" = .ok algv → reg.getAlg algv = .ok alg → alg.cls ≠ "NoneAlgModel")
+    (h : serializeFlat P E K reg m payload (.base (.key sk)) = .ok v) :
+    ∃ o, deserializeFlat P E K reg v (.base (.key pk)) = .ok o ∧ o.payload = payload ∧
+      ∃ m', o.members = [m'] ∧ m'.headers = m.headers := by
+  simp only [serializeFlat, bind_eq_ok, pure_eq_ok] at h
+  obtain ⟨s, hs, rfl⟩ := h
+  obtain ⟨m', hm, hh, hv⟩ := signMember_verifies P E K L reg m payload sk pk hpub s hnone hs
+  refine ⟨{ payload := payload, members := [m'] }, ?_, rfl, m', rfl, hh⟩
+  simp only [deserializeFlat, extractPayload_b64e payload hp, hm, hv, bind, Except.bind, pure, Except.pure, ensure, if_true]
+
+/-- The signature list of a general serialization, entry by entry. -/
+theorem signMembers_verify (P : Prims) (E : Env) (K : KeyEnv) (L : JwsLaws P E) (reg : JwsRegistry)
+    (payload : Bytes) (sk pk : Key) (hpub : PubOf E sk pk) (ms : List Member) (sigs : List JsonSig)
+    (hnone : ∀ m ∈ ms, ∀ algv alg, pyGetItemStr (.obj m.headers) "alg" = .ok algv → reg.getAlg algv = .ok alg → alg.cls ≠ "NoneAlgModel")
+    (h : ms.mapM (fun m => signMember P E K reg (b64e payload) m (.base (.key sk))) = .ok sigs) :
+    ∃ ms', sigs.mapM (signatureToMember P) = .ok ms' ∧ ms'.map (·.headers) = ms.map (·.headers) ∧ sigs.length = ms.length ∧
+      verifyAll P E K reg (strBytes (asciiStr (b64e payload))) (.base (.key pk)) (ms'.zip sigs) = .ok true := by
+  induction ms generalizing sigs with
+  | nil =>
+    simp only [List.mapM_nil, pure_eq_ok] at h
+    subst h
+    exact ⟨[], by simp [pure, Except.pure], rfl, rfl, rfl⟩
+  | cons m rest ih =>
+    simp only [List.mapM_cons, bind_eq_ok, pure_eq_ok] at h
+    obtain ⟨s, hs, ss, hss, rfl⟩ := h
+    obtain ⟨m', hm, hh, hv⟩ := signMember_verifies P E K L reg m payload sk pk hpub s (hnone m (List.mem_cons_self ..)) hs
+    obtain ⟨ms', hms, hhs, hlen, hva⟩ := ih ss (fun x hx => hnone x (List.mem_cons_of_mem _ hx)) hss
+    refine ⟨m' :: ms', ?_, ?_, ?_, ?_⟩
+    · simp only [List.mapM_cons, hm, hms, bind, Except.bind, pure, Except.pure]
+    · simp [hh, hhs]
+    · simp [hlen]
+    · simp only [List.zip_cons_cons, verifyAll, hv, hva, bind, Except.bind, pure, Except.pure, Bool.not_true, Bool.false_eq_true, if_false]
+
+/-- **General JSON round trip** (key given directly, any number ≥ 1 of signature members): what
+`jws.serialize_json` returns for a list of members verifies with the public key under the same registry and yields the
+original payload octets and, member by member, the same merged headers. -/
+theorem c03_general (P : Prims) (E : Env) (K : KeyEnv) (L : JwsLaws P E) (reg : JwsRegistry) (ms : List Member) (hne : ms ≠ [])
+    (payload : Bytes) (sk pk : Key) (hpub : PubOf E sk pk) (hp : IsBytes payload) (v : GeneralJws)
+    (hnone : ∀ m ∈ ms, ∀ algv alg, pyGetItemStr (.obj m.headers) "alg" = .ok algv → reg.getAlg algv = .ok alg → alg.cls ≠ "NoneAlgModel")
+    (h : serializeGeneral P E K reg ms payload (.base (.key sk)) = .ok v) :
+    ∃ o, deserializeGeneral P E K reg v (.base (.key pk)) = .ok o ∧ o.payload = payload ∧
+      o.members.map (·.headers) = ms.map (·.headers) := by
+  simp only [serializeGeneral, bind_eq_ok, pure_eq_ok] at h
+  obtain ⟨sigs, hs, rfl⟩ := h
+  obtain ⟨ms', hms, hhs, hlen, hva⟩ := signMembers_verify P E K L reg payload sk pk hpub ms sigs hnone hs
+  refine ⟨{ payload := payload, members := ms' }, ?_, rfl, hhs⟩
+  have hne' : sigs.isEmpty = false := by
+    cases sigs with
+    | nil => cases ms with
+      | nil => exact absurd rfl hne
+      | cons a b => simp at hlen
+    | cons a b => rfl
+  simp only [deserializeGeneral, extractPayload_b64e payload hp, hms, hva, hne', bind, Except.bind, pure, Except.pure, ensure,
+    Bool.not_false, if_true]
 
 end Jose.C03
